@@ -28,6 +28,18 @@ CLAIMED = {
              "fix: commit (known_findings.json, status fixed); seeded/C01-unsorted-cardinals reverts it and is detected.",
         technique="Lean 4 theorem over all permutations of the table + source facts + multi-process search",
         design="§4 C01"),
+    "C03": dict(
+        category="translation_validation",
+        text="The interpreter (subrule.rs, rule.rs: all four rule types, every matcher, cursor arithmetic with release-mode wrapping, panics and "
+             "non-termination as values) is ported line by line to an executable Lean model and compared with Rule::apply on ~27k generated "
+             "(rule, word) cases per quick run (400k thorough) through the AST hook - identical outcome class and identical resulting word; and an "
+             "independent reference interpreter written from the manual is compared with the implementation over the basic fragment (~110k cases "
+             "quick, 2.4M thorough). Machine-checked so far: only the structural facts (a rule whose input matches nowhere is the identity; empty "
+             "word); the refinement theorem `basic_refines` (model = manual's reading on the fragment) is NOT yet proved - hence this level.",
+        note="Trusted: harness reference interpreter (frag.rs), hooks, generators. Not a proof of the property: validation of model and code against "
+             "the documented semantics on generated inputs.",
+        technique="Lean 4 executable port + model/impl correspondence + reference interpreter from the manual (theorem pending)",
+        design="§4 C03"),
     "C04": dict(
         text="Machine-checked theorems about a line-by-line Lean model of SubRule::match_modifiers / Segment::apply_seg_mods: a binary feature "
              "matches iff present-and-equal (absent sub-node matches neither polarity), a whole binary matrix matches iff every named feature has "
@@ -111,7 +123,7 @@ def main():
                 "evidence_file": f"/verif/evidence/{p}.json",
                 "replay_cmd_template": f"./check {p} quick --replay {{path}}",
                 "engine": "lean4-model+harness",
-                "level_claimed": {"category": "proof", "text": c["text"], "design_ref": c["design"]},
+                "level_claimed": {"category": c.get("category", "proof"), "text": c["text"], "design_ref": c["design"]},
                 "level_note": c["note"],
                 "technique": c["technique"],
             })
